@@ -4,9 +4,11 @@
 package richdoc
 
 import (
+	"bytes"
 	"fmt"
 	"image"
 	"image/color"
+	"image/jpeg"
 
 	"seehuhn.de/go/pdf"
 	"seehuhn.de/go/pdf/document"
@@ -258,5 +260,30 @@ func handmadePage(t *tape.Tape, doc *document.MultiPage) error {
 		"ColorSpace": pdf.Dict{"CS1": cs, "CS2": cs},
 		"Font":       pdf.Dict{"F1": fnt, "F2": fnt},
 	}
-	return doc.Tree.AppendPageDict(w.Alloc(), pdf.Dict{"Type": pdf.Name("Page"), "MediaBox": pdf.Array{pdf.Integer(0), pdf.Integer(0), pdf.Integer(200), pdf.Integer(200)}, "Contents": cont, "Resources": res})
+	var contents pdf.Object = cont
+	if t.Bool("rich.hm.hostilecontent", 1, 3) {
+		// a second content stream whose filter chain has a JPEG decoder below a
+		// stage that fails in the middle of the data: the pixels decode to the
+		// hex digit '4' (give or take one) for the first 12 KiB and to '{'
+		// afterwards, so ASCIIHexDecode reports malformed data while the JPEG
+		// producer still has output pending
+		g := image.NewGray(image.Rect(0, 0, 128, 128))
+		for i := range g.Pix {
+			g.Pix[i] = 0x34
+			if i >= 128*96 {
+				g.Pix[i] = 0x7b
+			}
+		}
+		var jb bytes.Buffer
+		jpeg.Encode(&jb, g, &jpeg.Options{Quality: 100})
+		chain := tape.Pick(t, "rich.hm.hostilechain", pdf.Array{pdf.Name("DCTDecode"), pdf.Name("ASCIIHexDecode")}, pdf.Array{pdf.Name("DCTDecode"), pdf.Name("ASCII85Decode")}, pdf.Array{pdf.Name("DCTDecode"), pdf.Name("FlateDecode")}, pdf.Array{pdf.Name("DCTDecode"), pdf.Name("ASCIIHexDecode"), pdf.Name("RunLengthDecode")})
+		hc := w.Alloc()
+		w.Put(hc, pdf.NewStream(pdf.Dict{"Filter": chain}, jb.Bytes()))
+		if t.Bool("rich.hm.hostilefirst", 1, 2) {
+			contents = pdf.Array{hc, cont}
+		} else {
+			contents = pdf.Array{cont, hc}
+		}
+	}
+	return doc.Tree.AppendPageDict(w.Alloc(), pdf.Dict{"Type": pdf.Name("Page"), "MediaBox": pdf.Array{pdf.Integer(0), pdf.Integer(0), pdf.Integer(200), pdf.Integer(200)}, "Contents": contents, "Resources": res})
 }
